@@ -12,7 +12,7 @@ from typing import Dict, List, Literal, Optional, Tuple, Union
 import duckdb
 import pandas as pd
 
-from vtlengine.DataTypes import Date, Number, TimePeriod
+from vtlengine.DataTypes import Date, Integer, Number, TimePeriod
 from vtlengine.duckdb_transpiler.io._validation import (
     VALID_DATE_REGEX,
     build_create_table_sql,
@@ -588,6 +588,21 @@ def _build_dataframe_select_columns(
             exprs.append(f'CAST(NULL AS {target_type}) AS "{comp_name}"')
         elif comp.data_type == Number:
             exprs.append(f'CAST(CAST("{comp_name}" AS VARCHAR) AS {target_type}) AS "{comp_name}"')
+        elif comp.data_type == Integer and target_type == "BIGINT" and "INT" not in source_type:
+            # Same rule as the CSV path (build_select_columns): a value with a non-zero decimal
+            # part is rejected instead of being silently rounded by the cast, and only decimal
+            # numerals are read (no hexadecimal / binary literals). Integer source columns
+            # cannot hold such values and keep the plain cast.
+            as_decimal = f'CAST("{comp_name}" AS DECIMAL(38, 10))'
+            err = (
+                f"'Column {comp_name}: value ' || CAST(\"{comp_name}\" AS VARCHAR) || "
+                f"' has non-zero decimal component for Integer type'"
+            )
+            exprs.append(
+                f'CASE WHEN "{comp_name}" IS NOT NULL AND {as_decimal} <> FLOOR({as_decimal}) '
+                f"THEN error({err}) "
+                f'ELSE CAST({as_decimal} AS BIGINT) END AS "{comp_name}"'
+            )
         elif comp.data_type == Date and (
             "VARCHAR" in source_type or source_type.startswith("ENUM")
         ):
